@@ -115,7 +115,17 @@ func (iofs IOFS) ReadFile(name string) ([]byte, error) {
 	return bytes, nil
 }
 
-func (iofs IOFS) Sub(dir string) (fs.FS, error) { return IOFS{NewBasePathFs(iofs.Fs, dir)}, nil }
+func (iofs IOFS) Sub(dir string) (fs.FS, error) {
+	if !fs.ValidPath(dir) {
+		return nil, iofs.wrapError("sub", dir, fs.ErrInvalid)
+	}
+	if dir == "." {
+		// BasePathFs with base "." refuses every name but "." itself
+		return iofs, nil
+	}
+
+	return IOFS{NewBasePathFs(iofs.Fs, dir)}, nil
+}
 
 func (IOFS) wrapError(op, path string, err error) error {
 	if _, ok := err.(*fs.PathError); ok {
